@@ -245,7 +245,7 @@ fn play(rng: &mut Rng, r: &mut Report, rp: &dyn Fn() -> Json, continue_existing:
 
 pub fn run(cfg: &Cfg, rep: &mut Report) {
     rep.rule = "histories of 1..50 calls mixing id(), every generated type method (implicit and explicit ids) and type_pointer with operands from a 4-id pool (so repeats are frequent), constants/variables/other emitters, block-instruction calls that fail after reserving an id, on new builders and on builders continuing a module with header bound B; after every call the next-id hook, the returned id and types_global_values are compared with a counter model and a declaration-list model (identity = opcode + operands); at the end bound == next id > every fresh id, no duplicate declarations in all-implicit modules, no shared ids. distinct_nontrivial = distinct (type method, request kind) and (emitter kind, outcome) pairs".into();
-    let n = cfg.n(100_000, 600_000);
+    let n = cfg.n(100_000, 15_000_000);
     run_stage(cfg, rep, "histories", n, |idx, rng, r| {
         let rp = || crate::util::replay_ref(cfg, "histories", idx);
         play(rng, r, &rp, idx % 3 == 2);
